@@ -567,6 +567,12 @@ class HeapInterp:
                 label(c.id, et if isinstance(op, ast.In) else ef, f"@has:{l.value}")
             elif isinstance(l, ast.Name) and isinstance(c, ast.Constant) and isinstance(c.value, str) and isinstance(op, (ast.Eq, ast.NotEq)):
                 label(l.id, et if isinstance(op, ast.Eq) else ef, f"@eq:{c.value}")
+            elif isinstance(op, (ast.Eq, ast.NotEq)) and (isinstance(c, ast.Constant) and isinstance(c.value, str) or isinstance(l, ast.Constant) and isinstance(l.value, str)):
+                # f(x) == "KW" with x the only variable: the test selects x by that keyword
+                cst, other = (c, l) if isinstance(c, ast.Constant) else (l, c)
+                vs = {n.id for n in ast.walk(other) if isinstance(n, ast.Name) and n.id in env and env[n.id].kind in ("str", "const")}
+                if len(vs) == 1:
+                    label(vs.pop(), et if isinstance(op, ast.Eq) else ef, f"@eq:{cst.value}")
         elif isinstance(test, ast.Call) and isinstance(test.func, ast.Attribute) and test.func.attr in ("startswith", "endswith") \
                 and isinstance(test.func.value, ast.Name) and test.args and isinstance(test.args[0], ast.Constant):
             lab = ("@sw:" if test.func.attr == "startswith" else "@ew:") + str(test.args[0].value)
